@@ -17,6 +17,8 @@ import JugModel.Props.KALock
 #print axioms Jug.C19.dead_worker_run
 #print axioms Jug.C19.stopped_is_final
 #print axioms Jug.C19.runEnv_live
+#print axioms Jug.C19.live_never_failed_code
+#print axioms Jug.C19.dead_worker_code
 #print axioms Jug.KALockProps.held_lock_has_helper
 #print axioms Jug.KALockProps.get_spec
 #print axioms Jug.KALockProps.let_go_stops_helper
